@@ -19,7 +19,7 @@ TRUSTED = [
     "storage/src/storage/local.rs send/receive, storage/src/storage/generic.rs send/receive/run_for_paths(_in_temp_dir), storage/src/storage/mod.rs XvcStorageTempDir / XvcStoragePath",
     "abstracted: hash functions (ideal: a digest is (algorithm, normalised content); the oracle re-hashes every object), target globs (explicit tracked paths; C18 covers resolution), "
     "the storage event store (Init/Send/Receive events are written but never read by send/bring), the directories move_to_cache creates and their permission bits, "
-    "the commands of a generic storage (oracles: one of ok / fail before writing / fail after writing half per invocation), --force of send (unlink + copy = copy), cloud storages (not claimed)",
+    "the commands of a generic storage (oracles: one of ok / fail before writing / fail after writing half per invocation), cloud storages (not claimed)",
     "environment assumptions: rename(2) is atomic inside a file system and fails with EXDEV across file systems; the visiting order of targets (HashMap iteration) is a parameter: observed from the "
     "fault script's log on the real side, universally quantified in the theorems; user edits are visible (size or mtime changes)",
 ]
@@ -244,7 +244,9 @@ class World:
             have = [p for p in ts if self.addr_of(i, p) in cache]
             copied = [p for p in have if cur["st"].get("%d/%s" % (gi, self.addr_of(i, p))) == cache[self.addr_of(i, p)]]
             rest = [p for p in ts if p not in copied]
-            rest.sort(key=lambda p: self.addr_of(i, p) in cache)      # a missing one first
+            # a missing one first; among them the one whose stored object the command removed (--force)
+            rest.sort(key=lambda p: (self.addr_of(i, p) in cache,
+                                     not ("%d/%s" % (gi, self.addr_of(i, p)) in prev["st"] and "%d/%s" % (gi, self.addr_of(i, p)) not in cur["st"])))
             return copied + rest
         return ts
 
@@ -309,7 +311,7 @@ class World:
 # the model side
 # ---------------------------------------------------------------------------------------------------------
 def model_line(sc, eff, flags, tmp_override=None):
-    parts = ["%d%d" % (flags[0], flags[1])]
+    parts = ["%d%d%d" % (flags[0], flags[1], flags[2])]
     parts.append("new 0 100 %s" % sc["algo"])
     for p, m, h in sc["files"]:
         parts.append("track 0 %s %s %s" % (hx(p), m, h or "-"))
@@ -332,7 +334,7 @@ def model_line(sc, eff, flags, tmp_override=None):
             ts = ",".join(hx(p) for p in st["order"]) or "-"
             fs = "".join(f for _, f, _ in st.get("log", [])) or "-"
             if op == "send":
-                parts.append("send %d %s %s %s" % (st["repo"], st["kind"], ts, fs))
+                parts.append("send %d %s %d %s %s" % (st["repo"], st["kind"], 1 if st.get("force") else 0, ts, fs))
             else:
                 tmp = tmp_override or st.get("tmp", "same")
                 parts.append("bring %d %s %d %d %s %s" % (st["repo"], st["kind"], 1 if tmp == "same" else 0, 1 if st.get("force") else 0, ts, fs))
@@ -437,7 +439,13 @@ def judge(w):
             for key in set(prev["st"]) | set(cur["st"]):
                 if not key.startswith("%d/" % g) and prev["st"].get(key) != cur["st"].get(key):
                     bad.append((k, "send from repository %d changed the storage object %s of another repository" % (i, key), "collision"))
-            if clean_transfer(st, st["log"]):
+            # "sending again changes nothing": whatever fails, an object that was stored is still stored
+            for key in prev["st"]:
+                if key not in cur["st"]:
+                    bad.append((k, "send %s%s from repository %d removed the stored object %s" % (
+                        st["kind"], " --force" if st.get("force") else "", i, key), "lost-object"))
+            # a local send stops at the first object the cache lacks: what it had not copied yet is not stored
+            if clean_transfer(st, st["log"]) and (st["kind"] == "G" or cur["oc"] == "Ok"):
                 for p in st["order"]:
                     a = w.addr_of(i, p)
                     if a in prev["repos"][i]["cache"] and cur["st"].get("%d/%s" % (g, a)) != prev["repos"][i]["cache"][a]:
@@ -592,6 +600,14 @@ def has_fault(st, letters):
     return any(c in v for v in (st.get("faults") or {}).values() for c in letters)
 
 
+def with_send_force_off(sc):
+    s = json.loads(json.dumps(sc))
+    for st in s["steps"]:
+        if st["op"] == "send" and st["kind"] == "L":
+            st["force"] = False
+    return s
+
+
 def with_tmp_same(sc):
     s = json.loads(json.dumps(sc))
     for st in s["steps"]:
@@ -614,51 +630,67 @@ def shrink(xvc, sc, kind):
     return cur
 
 
-CLASSES = [("exdev-tmpdir", lambda sc: any(st["op"] == "bring" and st.get("tmp") == "other" for st in sc["steps"]), with_tmp_same),
+CLASSES = [("send-force-removes-stored-object", lambda sc: any(st["op"] == "send" and st["kind"] == "L" and st.get("force") for st in sc["steps"]), with_send_force_off),
+           ("exdev-tmpdir", lambda sc: any(st["op"] == "bring" and st.get("tmp") == "other" for st in sc["steps"]), with_tmp_same),
            ("partial-download-enters-cache", lambda sc: any(st["op"] == "bring" and has_fault(st, "p") for st in sc["steps"]),
             lambda sc: with_faults(sc, "bring", "p", "c")),
            ("partial-upload-then-bring", lambda sc: any(st["op"] == "send" and has_fault(st, "p") for st in sc["steps"]),
             lambda sc: with_faults(sc, "send", "p", "c"))]
 
 
-def classify(xvc, sc, kind, stderr="", step=None):
+def classify(xvc, sc, kind, stderr="", step=None, memo=None):
     """class label of an oracle failure, decided on the input by counterfactual runs:
        exdev-tmpdir: some bring runs with TMPDIR on another file system and the same scenario with TMPDIR on the repository's passes
        partial-download-enters-cache: some download command fails after writing half, and the scenario passes when those fail before writing
        partial-upload-then-bring: some upload command fails after writing half, and the scenario passes when those fail before writing
-    When only several of these changes together make the failure disappear, it is attributed to the first of them."""
+       send-force-removes-stored-object: some send to the local storage runs with --force, and the scenario passes when it runs without
+    (passes = the oracle no longer fails in this way at this step).  When only several of these changes together make the
+    failure disappear, it is attributed to the first of them.  memo: counterfactual runs already made for this scenario."""
     import itertools
     if kind == "tmp-location":
         # by construction the two runs differ only in TMPDIR; the known class is the EXDEV failure of rename
         return "exdev-tmpdir" if re.search(r"CrossesDevices|cross-device|os error 18", stderr) else None
+    memo = {} if memo is None else memo
     app = [(name, cf) for name, pred, cf in CLASSES if pred(sc)]
     for r in range(1, len(app) + 1):
         for combo in itertools.combinations(app, r):
-            s = sc
-            for _, cf in combo:
-                s = cf(s)
-            ks, w = failing_kinds(xvc, s)
-            if w is not None and not any(kd == kind and (step is None or k == step) for k, kd in ks):
+            key = tuple(name for name, _ in combo)
+            if key not in memo:
+                s = sc
+                for _, cf in combo:
+                    s = cf(s)
+                ks, w = failing_kinds(xvc, s)
+                memo[key] = ks if w is not None else None
+            ks = memo[key]
+            if ks is not None and not any(kd == kind and (step is None or k == step) for k, kd in ks):
                 return combo[0][0]
     return None
 
 
+def classify_scenario(xvc, sc, fails, stderr_at, twin=None):
+    """fails: [(kind, step)] of one scenario -> {(kind, step): class}; the paired run with TMPDIR on the repository's
+    file system, when it was made, is the first counterfactual"""
+    memo = {}
+    if twin is not None:
+        memo[("exdev-tmpdir",)] = {(k, kind) for k, _, kind in judge(twin)}
+    return {(kind, k): classify(xvc, sc, kind, stderr_at(k), step=k, memo=memo) for kind, k in fails}
+
+
 def merged_known_findings():
-    """known_findings.json is assembled from findings.d/*.json by the coordinator; until it contains the
-    entries of this property, the fragment findings.d/C06.json is read directly (same content)."""
+    """known_findings.json is assembled from findings.d/*.json by the coordinator (tools/mkmanifest.py); entries of
+    the fragment findings.d/C06.json that are not in it yet are read from the fragment itself (same content)."""
     base = C.known_findings
 
     def kf(prop):
-        r = base(prop)
+        r = list(base(prop))
+        p = os.path.join(C.ROOT, "findings.d", prop + ".json")
         try:
             data = json.load(open(os.path.join(C.ROOT, "known_findings.json")))
-            if any(f.get("property") == prop for f in data.get("findings", [])):
-                return r
+            listed = {f.get("id") for f in data.get("findings", []) if f.get("property") == prop}
         except (OSError, ValueError):
-            pass
-        p = os.path.join(C.ROOT, "findings.d", prop + ".json")
+            listed = set()
         if os.path.exists(p):
-            return [f for f in json.load(open(p)) if f.get("property") == prop and f.get("status") == "open"]
+            r += [f for f in json.load(open(p)) if f.get("property") == prop and f.get("status") == "open" and f.get("id") not in listed]
         return r
     if getattr(base, "_c06", False):
         return base
@@ -703,7 +735,7 @@ def run(chk, replay=None):
         chk.fail("correspondence", "the extracted model does not build: %s" % str(e)[-300:], {"theorem_or_correspondence": "storagemodel build"}, name="model", has_input=False)
     xvc = C.ensure_xvc()
     other_ok = other_fs_available()
-    n = 90 if chk.tier == "quick" else 900
+    n = 60 if chk.tier == "quick" else 900
     corpus = []
     cdir = os.path.join(C.ROOT, "corpus", "C06")
     for f in sorted(os.listdir(cdir)) if os.path.isdir(cdir) else []:
@@ -718,6 +750,14 @@ def run(chk, replay=None):
         scs = [(nm, with_tmp_same(sc)) for nm, sc in scs]
     pool = ThreadPoolExecutor(10)
     results = list(pool.map(lambda t: (t[0],) + run_one(xvc, t[1], True), scs))
+    # a scenario that could not be executed (a command timing out on a loaded machine) is tried again, alone
+    for j, res in enumerate(results):
+        for attempt in range(2):
+            if res[4] is None:
+                break
+            C.log("%s: %s; running it again" % (res[0], res[4]))
+            res = (res[0],) + run_one(xvc, res[1], True)
+            results[j] = res
     dist = {"scenarios": len(scs), "steps": 0, "kinds": {"L": 0, "G": 0}, "ops": {}, "tmp_other": 0, "faulty_commands": 0, "force": 0,
             "outcomes": {"Ok": 0, "Err": 0, "Panic": 0}, "algos": {}, "second_repository": 0, "oracle_failures": {}, "oracle_failure_classes": {},
             "other_fs_available": other_ok, "model_compared_steps": 0, "brings_that_moved_objects": 0}
@@ -747,20 +787,26 @@ def run(chk, replay=None):
         for k, what, kind in bad:
             kinds.setdefault((kind, k), (k, what))
         pending.append((nm, sc, w, kinds))
-        for (kind, k) in kinds:
-            tasks.append((len(pending) - 1, (kind, k), k))
-    klasses = list(pool.map(lambda t: classify(xvc, pending[t[0]][1], t[1][0], pending[t[0]][2].obs[t[2]]["stderr"], step=t[2]), tasks))
-    klass_of = {(t[0], t[1]): kl for t, kl in zip(tasks, klasses)}
+        if kinds:
+            tasks.append((len(pending) - 1, tw))
+    per_scenario = list(pool.map(lambda t: classify_scenario(xvc, pending[t[0]][1], list(pending[t[0]][3]),
+                                                             lambda k, w_=pending[t[0]][2]: w_.obs[k]["stderr"], twin=t[1]), tasks))
+    klass_of = {}
+    for t, d in zip(tasks, per_scenario):
+        for key, kl in d.items():
+            klass_of[(t[0], key)] = kl
     # which behaviour does the code have now?  decided by the corpus witnesses of P9 and P10
-    flags = [1, 1]
+    flags = [1, 1, 1]
     for idx, (nm, sc, w, kinds) in enumerate(pending):
         for kind in kinds:
             if nm.startswith("p9") and klass_of[(idx, kind)] == "exdev-tmpdir":
                 flags[0] = 0
             if nm.startswith("p10") and klass_of[(idx, kind)] == "partial-download-enters-cache":
                 flags[1] = 0
-    chk.cov["code_switches_observed"] = {"fixed_P9": bool(flags[0]), "fixed_P10": bool(flags[1]),
-                                         "how": "corpus/C06/p9_* and p10_* run on the real binary; the model is compared under these switches"}
+            if nm.startswith("send_force") and klass_of[(idx, kind)] == "send-force-removes-stored-object":
+                flags[2] = 0
+    chk.cov["code_switches_observed"] = {"fixed_P9": bool(flags[0]), "fixed_P10": bool(flags[1]), "fixed_send_force": bool(flags[2]),
+                                         "how": "corpus/C06/p9_*, p10_* and send_force_* run on the real binary; the model is compared under these switches"}
     reported = {}
     for idx, (nm, sc, w, kinds) in enumerate(pending):
         for (kind, _k), (k, what) in kinds.items():
@@ -826,7 +872,7 @@ def run(chk, replay=None):
                     corr_reported += 1
                     chk.fail("correspondence", "%s: model and implementation differ after step %d (%s): %s" % (
                         nm, k, json.dumps({x: y for x, y in w.eff[k - 1].items() if x != "log"}) if k else "setup", "; ".join(d[:4])),
-                        {"theorem_or_correspondence": "storagemodel vs xvc (switches fixed_P9=%d fixed_P10=%d)" % tuple(flags), "input": sc, "step": k,
+                        {"theorem_or_correspondence": "storagemodel vs xvc (switches fixed_P9=%d fixed_P10=%d fixed_send_force=%d)" % tuple(flags), "input": sc, "step": k,
                          "differences": d[:20], "model_line": mlines[idx][0], "stderr": w.obs[k]["stderr"]}, name="corr", has_input=False)
                 break
     pool.shutdown()
